@@ -33,6 +33,34 @@ def arena_random(seed, tier):
     return scripts
 
 
+def arena_grown(seed, tier):
+    """complete (and, seeded, partly thinned) K-ary trees of depth 2-3, then one removal at every node: nodes with all K children
+    strictly below the node an operation is called on (the exhaustive arenas are too small for that when K = 3)"""
+    rnd = random.Random(2000 + seed)
+    scripts = []
+    for k, depth in ((2, 3), (3, 2)):
+        for variant in range(1 if tier == 'quick' else 4):
+            ops = [{'op': 'add_root', 'p': 0, 'l': 0, 'v': 0}]
+            level = [0]
+            nxt = 1
+            for _ in range(depth):
+                new = []
+                for p_ in level:
+                    for l in range(k):
+                        if variant > 0 and rnd.random() < 0.2:
+                            continue
+                        ops.append({'op': 'add_child', 'p': p_, 'l': l, 'v': nxt % 5})
+                        new.append(nxt)
+                        nxt += 1
+                level = new
+            for i in range(nxt):
+                scripts.append({'fam': 'arena', 'k': k, 'ops': ops + [{'op': 'remove_all_descendants', 'p': i, 'l': 0, 'v': 0}], 'all': False})
+                for l in range(k):
+                    scripts.append({'fam': 'arena', 'k': k, 'ops': ops + [{'op': 'try_remove_child', 'p': i, 'l': l, 'v': 0}], 'all': False})
+                    scripts.append({'fam': 'arena', 'k': k, 'ops': ops + [{'op': 'merge_child', 'p': i, 'l': l, 'v': 0}], 'all': False})
+    return scripts
+
+
 def arena_nontrivial(s):
     # non-trivial: the history contains at least one removal or merge before the last op (index reuse / shrinking)
     ops = s['ops']
@@ -45,7 +73,8 @@ def c12_stages(tier):
     st = [Stage('arena-k2c5', 'Trace_Arena', mc=('MC_Arena', 'MC_Arena_k2c5.cfg'), nontrivial=arena_nontrivial),
           Stage('arena-k3c4', 'Trace_Arena', mc=('MC_Arena', 'MC_Arena_k3c4.cfg'), nontrivial=arena_nontrivial),
           Stage('arena-k2c4r', 'Trace_Arena', mc=('MC_Arena', 'MC_Arena_k2c4r.cfg'), nontrivial=arena_nontrivial),
-          Stage('arena-random', 'Trace_Arena', gen=arena_random, nontrivial=arena_nontrivial)]
+          Stage('arena-random', 'Trace_Arena', gen=arena_random, nontrivial=arena_nontrivial),
+          Stage('arena-grown', 'Trace_Arena', gen=arena_grown, nontrivial=arena_nontrivial)]
     if tier == 'thorough':
         st += [Stage('arena-k2c6', 'Trace_Arena', mc=('MC_Arena', 'MC_Arena_k2c6.cfg'), nontrivial=arena_nontrivial, mc_workers=12),
                Stage('arena-k3c5', 'Trace_Arena', mc=('MC_Arena', 'MC_Arena_k3c5.cfg'), nontrivial=arena_nontrivial, mc_workers=12),
